@@ -1,8 +1,14 @@
 // Kani contract harnesses for `ShmReader::snapshot` (clock-bound-shm/src/reader.rs).
 // Woven as a child module of `reader` (private fields of ShmReader / MmapGuard are reachable).
 use super::*;
+// (explicit imports: the harness must not depend on which names reader.rs happens to import)
 use crate::shm_header::ShmHeader;
 use crate::{ClockErrorBound, ClockStatus, ShmError};
+use errno::Errno;
+use std::ffi::CStr;
+use std::mem::size_of;
+use std::ptr;
+use std::sync::atomic;
 use std::sync::atomic::{AtomicU16, AtomicU32, Ordering};
 
 #[repr(C)]
